@@ -19,17 +19,22 @@
     * record_within_reserved_space — if that size pass says the structure ends inside the buffer and its true
       (unbounded) end does not wrap `uint32_t`, serialising it performs **no store outside the buffer** and ends
       exactly at the computed position (`fits_implies_in_bounds`, `size_pass_exact`: Proofs/SizeSer.lean).
-  `stores_in_bounds_partial` (DESIGN.md): the global statement "no history logs an out-of-bounds store" additionally
-  needs (ii) the position invariant `open → at ≤ packetSize = 8·bufBytes` along every history of the runtime
-  model, (iii) header+context ≤ buffer (property precondition) for the packet opening/closing writes (specialised
-  templates), and the same two theorems for the event record header root.  Those are not proved; on the
-  implementation the property is decided by the guard page (byte-granular), the C assertion and sanitizers on every
-  history run.
+    * **no_store_outside_the_buffer** — the global statement: from `barectf_init`, after any sequence of API calls
+      against any platform script whose packet buffers all have one size, no store is outside the buffer (the run has
+      not halted), `packet_size` is the buffer size and `at` is inside the packet (position invariant `PInv`,
+      Proofs/RtPos.lean; the saved offsets of the written-back fields, Proofs/Saved.lean).  Hypotheses: `CfgOK`
+      (executable as `cfgOKb`, evaluated by the check on every real configuration it uses), the property's own
+      precondition (buffer ≥ header + context), and the `uint32_t` no-wrap conditions.
+  Not proved: platforms that install buffers of *different* sizes (there the position invariant is false after a buffer
+  swap that follows an ignored closing — finding F9); packets of 512 MiB and more (candidate finding F11).  On the
+  implementation the property is decided on every history by the guard page (byte-granular), the C assertion and
+  sanitizers.
 -/
 import BVM.Proofs.SerFrame
 import BVM.Proofs.RtSimp
 import BVM.Proofs.SizeSer
 import BVM.Proofs.RecordBounds
+import BVM.Proofs.CfgOKb
 namespace BVM
 
 theorem stores_are_logged_truthfully (env : SerEnv) (sc : Scalar) (oib : Option Nat) (v : Int) (s : SerSt) :
@@ -137,6 +142,46 @@ theorem tracing_call_writes_inside_the_packet (cfg : Cfg) (A : Nat) (d : DST) (e
     rw [hw.2.2.2] at this
     exact this
 
+/-- **no history of the tracer stores outside the packet buffer** (the global statement of C02, for platforms whose
+    packet buffers all have the same size `L`): from `barectf_init` on a buffer of `L` bytes, after *any* sequence of API
+    calls (open, close, tracing calls, enable/disable, finalisation — in any order, misuse included) against *any*
+    platform script (back-end answers, clock, toggles of `is_tracing_enabled` inside any callback, buffer swaps to other
+    buffers of `L` bytes), the run has not halted — the model halts exactly on a store outside the buffer
+    (`oob_store_is_detected`, `oob_halts`) — the packet size is the buffer size and `at` is inside the packet.
+    Hypotheses: `CfgOK` (what the front end guarantees: power-of-two alignments bounded by `A`, distinct member names in
+    the packet context; executable as `cfgOKb`, evaluated on real configurations by the check), the property's
+    precondition (the buffer holds packet header + context for every argument list the open callback passes) and the
+    `uint32_t` no-wrap conditions (buffer below 512 MiB, records whose true size does not wrap). -/
+theorem no_store_outside_the_buffer (cfg : Cfg) (d : DST) (L A : Nat) (hcfg : CfgOK A cfg d)
+    (hsmall : 8 * L + A ≤ 2 ^ 32) (p : Plat) (hsb : ∀ x ∈ p.setBufs, x.2 = L)
+    (hhdr : ∀ args ∈ openArgsOf p.openArgs, hdrEndN cfg d args ≤ 8 * L)
+    (ops : List Op) (hops : OpsSmall d L A ops) :
+    (runOps cfg d ops (rtInit L p)).halted = false ∧
+    (runOps cfg d ops (rtInit L p)).buf.length = L ∧
+    (runOps cfg d ops (rtInit L p)).c.packetSize = 8 * L ∧
+    (runOps cfg d ops (rtInit L p)).c.at_ ≤ 8 * L := by
+  have h := runOps_pinv cfg d L A p.openArgs hcfg hsmall hhdr ops hops (rtInit L p)
+    (rtInit_pinv d L A hcfg.Apos hsmall p hsb)
+  exact ⟨h.nh, h.len, h.pkt, h.at_⟩
+
+/-- the same with the configuration hypotheses in executable form (what the driver evaluates on real configurations) -/
+theorem no_store_outside_the_buffer_exec (cfg : Cfg) (d : DST) (L A : Nat) (hcfg : cfgOKb A cfg d = true)
+    (hsmall : 8 * L + A ≤ 2 ^ 32) (p : Plat) (hsb : ∀ x ∈ p.setBufs, x.2 = L)
+    (hhdr : hdrFitsb cfg d L p.openArgs = true) (ops : List Op) (hops : OpsSmall d L A ops) :
+    (runOps cfg d ops (rtInit L p)).halted = false :=
+  (no_store_outside_the_buffer cfg d L A (cfgOKb_sound A cfg d hcfg) hsmall p hsb
+    (hdrFitsb_sound cfg d L p.openArgs hhdr) ops hops).1
+
+/-- while a packet is open, the offsets saved for the closing function's write-backs are inside the buffer -/
+theorem saved_offsets_inside_the_buffer (cfg : Cfg) (d : DST) (L A : Nat) (hcfg : CfgOK A cfg d)
+    (hsmall : 8 * L + A ≤ 2 ^ 32) (p : Plat) (hsb : ∀ x ∈ p.setBufs, x.2 = L)
+    (hhdr : ∀ args ∈ openArgsOf p.openArgs, hdrEndN cfg d args ≤ 8 * L)
+    (ops : List Op) (hops : OpsSmall d L A ops)
+    (ho : (runOps cfg d ops (rtInit L p)).c.packetIsOpen = true) :
+    SavedOK d.pcOp.members (runOps cfg d ops (rtInit L p)).c.saved (8 * L) :=
+  (runOps_pinv cfg d L A p.openArgs hcfg hsmall hhdr ops hops (rtInit L p)
+    (rtInit_pinv d L A hcfg.Apos hsmall p hsb)).sv ho
+
 /-! Non-vacuity -/
 def c02S : Struct := ⟨1, [⟨"n", .el (.sc (.int false 8 8))⟩, ⟨"a", .darr "n" (.sc (.int false 5 8))⟩,
                            ⟨"t", .el (.sc (.int true 4 1))⟩, ⟨"s", .el (.sc .str)⟩]⟩
@@ -159,6 +204,32 @@ example : (serRoot ⟨.le, true, [], 0, 0, 0, 0, 0⟩ "p" (buildRoot specNone c0
 example : (({ buf := [0, 0], at_ := 8, saved := [], stores := [], oob := false, leaves := [] } : SerSt).store 1 2 [0, 1, 2]).oob = true := by
   decide
 
+
+/-- a configuration that meets `CfgOK`: 16-bit sizes, discarded counter and sequence number, a payload with a dynamic
+    array of 5-bit integers and a string; header + context = 48 bits -/
+def c02Dst : DST :=
+  { name := "s", id := 0, clock := none,
+    feat := { totalSize := .int false 16 8, contentSize := .int false 16 8, tsBegin := none, tsEnd := none,
+              discarded := some (.int false 8 8), seqNum := some (.int false 8 8), ertId := none, erTs := none },
+    pcExtra := [], ercc := none,
+    erts := [{ name := "e", id := 0, sc := none, p := some c02S }] }
+def c02Cfg : Cfg :=
+  { bo := .le, fast := true, uuid := [], feat := { magic := none, uuid := false, dstId := none }, dsts := [c02Dst] }
+def c02Ops : List Op := [.open_, .trace "e" c02Args, .enable false, .close, .enable true, .trace "e" c02Args,
+  .trace "e" c02Args, .fin]
+example : cfgOKb 8 c02Cfg c02Dst = true ∧ hdrFitsb c02Cfg c02Dst 16 [] = true ∧ 8 * 16 + 8 ≤ 2 ^ 32 := by decide +kernel
+example : OpsSmall c02Dst 16 8 c02Ops := by
+  intro en args hm e he hn a ha
+  have hargs : args = c02Args := by
+    simp only [c02Ops, List.mem_cons, Op.trace.injEq, List.mem_nil_iff, or_false, reduceCtorEq, false_or] at hm
+    rcases hm with h | h | h <;> exact h.2
+  have hee : e = { name := "e", id := 0, sc := none, p := some c02S } := by
+    simpa [c02Dst] using he
+  subst hargs hee
+  revert a
+  decide +kernel
+example : (runOps c02Cfg c02Dst c02Ops (rtInit 16 { fullAnswers := [false, true] })).halted = false := by decide +kernel
+
 #print axioms stores_are_logged_truthfully
 #print axioms string_store_logged_truthfully
 #print axioms oob_store_is_detected
@@ -172,4 +243,7 @@ example : (({ buf := [0, 0], at_ := 8, saved := [], stores := [], oob := false, 
 #print axioms any_root_fits_implies_in_bounds
 #print axioms er_size_is_er_serialise_advance
 #print axioms tracing_call_writes_inside_the_packet
+#print axioms no_store_outside_the_buffer
+#print axioms no_store_outside_the_buffer_exec
+#print axioms saved_offsets_inside_the_buffer
 end BVM
